@@ -566,7 +566,8 @@ MUTANTS = [
     Mutant("C07", "default-error-hook-percent-formats-peer-address", "C07-R6", S, "_default_methodcall_error_handler",
            lambda f, t: f.body.append(stmts("log.debug('client %s:%d' % client_sock)")[0])),
     Mutant("C13", "disconnect-handler-indexes-exception-args", "C13-R4", ST, "ClientConnectionJob.__call__",
-           lambda f, t: replace_expr(f, lambda e: u(e) == "str(x)", "x.args[0]"), also=("C09",)),
+           lambda f, t: replace_expr(f, lambda e: isinstance(e, ast.Call) and u(e.func) == "log.warning" and "clientDisconnect" in u(e), "log.warning('Error in clientDisconnect: %s', x.args[0])"),
+           also=("C09",)),
     Mutant("C05", "timeout-set-on-the-listening-socket", "C05-R1b", ST, "SocketServer_Threadpool.events",
            lambda f, t: replace_expr(f, lambda e: u(e) == "csock.settimeout", "self.sock.settimeout")),
     Mutant("C11", "compat-batch-drops-oneway", "C11-R4", "Pyro5/compatibility/Pyro4.py", "BatchProxy.__call__",
@@ -819,6 +820,33 @@ MUTANTS = [
            lambda f, t: delete_stmt(f, lambda s: isinstance(s, ast.Expr) and "discard" in u(s))),
     Mutant("C19", "metadata-uri-printed-like-any-other", "C19-R3", CO, "URI.__str__",
            lambda f, t: set_test(f, lambda e: "PYROMETA" in u(e), "False")),
+    # ---- rules added after the eleventh blind round (DESIGN 10.16)
+    Mutant("C17", "short-first-read-counted-before-it-is-appended", "C17-R3", SU, "receive_data",
+           lambda f, t: replace_stmt(f, lambda s: isinstance(s, ast.Assign) and u(s) == "msglen = len(chunk)" and not any(isinstance(p_, ast.While) and "msglen < size" in u(p_.test) for p_ in _parents(f, s)),
+                                     stmts("msglen = len(data)")), also=("C06", "C01", "C08")),
+    Mutant("C02", "metadata-reset-keyed-by-type-of-the-registration", "C02-R3", S, "Daemon.resetMetadataCache",
+           lambda f, t: replace_expr(f, lambda e: isinstance(e, ast.Call) and u(e) == "_reset_exposed_members(registered_object)", "_reset_exposed_members(type(registered_object))")),
+    Mutant("C03", "connection-published-before-the-handshake", "C03-R8", C, "Proxy.__pyroCreateConnection.connect_and_handshake",
+           lambda f, t: insert_after(f, lambda s: isinstance(s, ast.Assign) and u(s.targets[0]) == "conn" and "SocketConnection" in u(s.value), stmts("self._pyroConnection = conn"))),
+    Mutant("C17", "connection-wrapper-rebuilds-the-read-error", "C17-R5", SU, "SocketConnection.recv",
+           lambda f, t: replace_stmt(f, lambda s: isinstance(s, ast.Return),
+                                     stmts("try:\n    return receive_data(self.sock, size)\nexcept ConnectionClosedError as x:\n    raise ConnectionClosedError('%s [%s]' % (x, self.objectId)) from x")),
+           also=("C06",)),
+    Mutant("C14", "memory-listing-hands-out-the-live-storage", "C14-R3", NSV, "MemoryStorage.everything",
+           lambda f, t: replace_expr(f, lambda e: isinstance(e, ast.Call) and u(e) == "self.copy()", "self"), also=("C15",)),
+    Mutant("C14", "storage-specification-lowercased", "C14-R3", NSV, "NameServerDaemon.__init__",
+           lambda f, t: replace_stmt(f, lambda s: isinstance(s, ast.Assign) and u(s) == "storage = storage or 'memory'", stmts("storage = (storage or 'memory').strip().lower()"))),
+    Mutant("C14", "safe-registration-of-the-same-uri-passes", "C14-R3", NSV, "NameServer.register",
+           lambda f, t: set_test(f, lambda e: u(e) == "safe and name in self.storage", "safe and name in self.storage and self.storage[name][0] != uri"), also=("C15",)),
+    Mutant("C19", "broadcast-answer-edits-the-servers-own-uri", "C19-R5", NSV, "BroadcastServer.processRequest",
+           lambda f, t: replace_expr(f, lambda e: isinstance(e, ast.Call) and u(e) == "core.URI(self.nsUri)", "self.nsUri")),
+    Mutant("C05", "accepted-socket-switched-back-to-blocking", "C05-R1b", ST, "SocketServer_Threadpool.events",
+           lambda f, t: insert_after(f, lambda s: isinstance(s, ast.Expr) and "csock.settimeout" in u(s), stmts("csock.setblocking(True)"))),
+    Mutant("C20", "one-retry-even-without-a-retry-budget", "C20-R3", C, "_RemoteMethod.__call__",
+           lambda f, t: replace_expr(f, lambda e: isinstance(e, ast.Compare) and u(e) == "attempt >= self.__max_retries", "attempt > self.__max_retries") or
+           replace_expr(f, lambda e: isinstance(e, ast.Call) and u(e) == "range(self.__max_retries + 1)", "range(self.__max_retries + 2)"), also=("C03",)),
+    Mutant("C13", "disconnect-removes-streams-with-del", "C13-R3", S, "Daemon._clientDisconnect",
+           lambda f, t: replace_stmt(f, lambda s: isinstance(s, ast.Expr) and ".pop(streamId, None)" in u(s), stmts("del self.streaming_responses[streamId]"))),
     Mutant("C18", "communication-timeout-set-by-the-worker", "C18-R3", ST, "SocketServer_Threadpool.events",
            lambda f, t: (delete_stmt(f, lambda s: isinstance(s, ast.If) and "COMMTIMEOUT" in u(s.test)),
                          find_fn(t, "ClientConnectionJob.__call__").body.insert(0, stmts("if config.COMMTIMEOUT:\n    self.csock.timeout = config.COMMTIMEOUT")[0])), also=("C05",)),
